@@ -6,7 +6,7 @@ replaced by the callee's contract.  Everything outside the modelled subset raise
 """
 import ast
 import z3
-from .values import (Sym, Ref, LObj, DObj, SetObj, Obj, Unsupported, sort_of, zstr, is_opt, opt_none, opt_some,
+from .values import (Sym, Ref, LObj, DObj, SetObj, Obj, Unsupported, StaleContract, sort_of, zstr, is_opt, opt_none, opt_some,
                      opt_is_none, opt_val, FuncRef, BoundMethod, ClassRef, Builtin, ModuleRef, ExcVal, fresh,
                      parse_ty)
 from .state import State, MergeFail, merge_states, merge_value, type_of, lift, mk, values_equal, unify_ty
@@ -787,7 +787,7 @@ class Interp:
                 return Builtin('spec:' + name)
             if name in ops.BUILTINS:
                 return Builtin(name)
-            raise Unsupported('unknown name %s in spec' % name)
+            raise StaleContract('unknown name %s in spec' % name)
         m = self.repo.modules.get(module)
         if m is not None:
             if name in m.functions:
